@@ -118,7 +118,8 @@ def observe(fn, timeout: int = 20) -> dict:
     try:
         return alpha_structured(fn())
     except FormulaParsingError as e:
-        return {"st": "REJECT", "cls": type(e).__name__, "msg": str(e).split("\n")[0][:120]}
+        full = str(e)
+        return {"st": "REJECT", "cls": type(e).__name__, "msg": full.split("\n")[0][:120], "context": full.split("\n\n", 1)[1] if "\n\n" in full else ""}
     except SyntaxError as e:
         return {"st": "PYSYNTAX", "msg": str(e)[:120]}
     except _Timeout:
@@ -129,6 +130,25 @@ def observe(fn, timeout: int = 20) -> dict:
         return {"st": "ESCAPED", "cls": type(e).__name__, "msg": str(e)[:120]}
     finally:
         signal.alarm(0)
+
+
+def context_law(s: str, obs: dict):
+    """The source context a rejection carries marks a token of the input: without its markers it is the input string itself and the
+    marked stretch is not empty (C15: 'each token's recorded source span delimits its text in the original string').  None if it holds."""
+    import re
+
+    c = obs.get("context", "")
+    if obs.get("st") != "REJECT" or not c:
+        return None
+    plain = re.sub(r"\x1b\[[0-9;]*m", "", c)
+    if plain.count("⧛") != 1 or plain.count("⧚") != 1 or plain.index("⧛") > plain.index("⧚"):
+        return "malformed markers in the error context: " + repr(plain[:80])
+    inner = plain[plain.index("⧛") + 1 : plain.index("⧚")]
+    if plain.replace("⧛", "").replace("⧚", "") != s:
+        return "the error context is not the input string: " + repr(plain[:80])
+    if inner == "":
+        return "the error context marks an empty stretch: " + repr(plain[:80])
+    return None
 
 
 def parse_terms(s: str, cfg: dict) -> dict:
